@@ -215,7 +215,7 @@ func runC14Bubble(t *testing.T, tape *sim.Tape, tier string, o *Outcome, schedp 
 		cmds := [][]string{
 			{"PING"}, {"SET", "k", "v"}, {"GET", "k"}, {"INCR", "n"}, {"LPUSH", "l", "a"}, {"LRANGE", "l", "0", "-1"}, {"HSET", "h", "f", "v"}, {"HGETALL", "h"},
 			{"SADD", "s", "m"}, {"ZADD", "z", "1", "m"}, {"ZRANGE", "z", "0", "-1"}, {"DEL", "k"}, {"KEYS", "*"}, {"SELECT", "1"}, {"AUTH", "pw"}, {"AUTH", "nope"},
-			{"CONFIG", "SET", "maxclients", "10"}, {"CONFIG", "GET", "maxclients"}, {"CONFIG", "SET", "requirepass", "pw"}, {"CONFIG", "GET", "port"}, {"CONFIG", "SET", "port", fmt.Sprint(plainPort)},
+			{"CONFIG", "SET", "maxclients", "10"}, {"CONFIG", "GET", "maxclients"}, {"CONFIG", "SET", "requirepass", "pw"}, {"CONFIG", "GET", "port"}, {"CONFIG", "GET", "*"}, {"CONFIG", "GET", "tls-*"}, {"CONFIG", "GET", "requirepass", "max*"}, {"CONFIG", "SET", "port", fmt.Sprint(plainPort)},
 			{"MSET", "a", "1", "b", "2"}, {"APPEND", "k", "x"}, {"EXPIRE", "k", "10"}, {"QUIT"},
 		}
 		if withTLS {
